@@ -24,9 +24,10 @@ import numpy as np
 from .. import common as cm
 from .. import narrow as nw
 from .. import narrow_bool as nb
+from .. import narrow_corr9 as ncorr9
 
 PID = "C09"
-PROOF_FILES = ["theories/Props/C09.v", "theories/Proofs/Nesterov.v", "theories/Model/Nesterov.v",
+PROOF_FILES = ["theories/Props/C09.v", "theories/Proofs/Nesterov.v", "theories/Model/Nesterov.v", "theories/Model/NesterovLoop.v",
                "theories/Checker/NarrowB.v", "theories/Checker/Narrow.v", "theories/Checker/Shapes.v"]
 TAU_K = 1e-3
 ENC_K = 1e-5
@@ -122,6 +123,52 @@ def finite_pt(x):
     return x is not None and all(math.isfinite(v) for v in x)
 
 
+def nesterov_loop_correspondence(R, cases, tier):
+    """Model/Nesterov.v (type dispatch) + Model/NesterovLoop.v (the loop and its three simplex projections), binary64
+    inside coqc, replay the support pairs gjk_nesterov_accelerated obtained, pass by pass, with and without
+    acceleration: directions, number of support evaluations, contact flag, distance and iteration count must
+    agree (harness/narrow_corr9.py, harness/impl/narrowbtrace9.py)."""
+    n = 110 if tier == "quick" else 900
+    step = max(1, len(cases) // n)
+    tc = [dict(c1=c["c1"], c2=c["c2"], kw={}, meta=c["meta"]) for c in cases[::step]]
+    try:
+        nwk = min(cm.NCPU, max(1, len(tc) // 6))
+        chunks = [tc[i::nwk] for i in range(nwk)]
+        res = cm.run_impl_parallel(PID, "narrowbtrace9", [dict(cases=ch) for ch in chunks], timeout=1500, tag="trace9")
+        out = [None] * len(tc)
+        for w, (rr, ch) in enumerate(zip(res, chunks)):
+            if rr["status"] != "ok":
+                continue
+            for i, x in zip(range(w, len(tc), nwk), rr["result"]["results"]):
+                out[i] = x
+        keep = [(c, o) for c, o in zip(tc, out) if o is not None]
+        lost = len(tc) - len(keep)
+        tc, out = [k[0] for k in keep], [k[1] for k in keep]
+        try:
+            stats, mism = ncorr9.compare(PID, tc, out, R.rng, lambda c: c["meta"]["L"])
+        except RuntimeError as e:
+            if "inconsistent assumptions" not in str(e):
+                raise
+            cm.coq_build(["theories/Model/NesterovLoopRun.vo"])
+            stats, mism = ncorr9.compare(PID, tc, out, R.rng, lambda c: c["meta"]["L"])
+    except RuntimeError as e:
+        R.corr_broken.append(f"Nesterov loop model could not be evaluated: {str(e)[:300]}")
+        return
+    stats["worker_lost"] = lost
+    R.cov["nesterov_loop_correspondence"] = stats
+    R.cov["traces_validated_against_impl"] = stats.get("matched", 0)
+    if mism:
+        sub = sorted({m[0] for m in mism})
+        st2, mism2 = ncorr9.compare(PID, [tc[i] for i in sub], [out[i] for i in sub], R.rng, lambda c: c["meta"]["L"],
+                                    tag="nestcorr2", npert=24)
+        R.cov["nesterov_loop_correspondence_second_look"] = st2
+        R.cov["nesterov_loop_first_look_differences"] = [f"{k}: {why[:400]}" for (_, k, why) in mism[:5]]
+        for (j, k, why) in mism2[:5]:
+            c = tc[sub[j]]
+            R.corr_broken.append(f"Model/NesterovLoop.v vs gjk_nesterov_accelerated (use_nesterov_acceleration={k == 'acc'}): "
+                                 f"{why[:600]} on c1={json.dumps(c['c1'])} c2={json.dumps(c['c2'])}")
+
+
 def run(tier, seed, replay=None):
     R = cm.Run(PID, "translation_validation", tier, seed)
     R.cov["rule"] = (
@@ -136,7 +183,7 @@ def run(tier, seed, replay=None):
         "witnesses are taken from gjk_distance_jolt / gjk_distance_original results and are untrusted; a pair whose enclosure cannot be certified is not judged for the Nesterov values (counted)",
         "the Frank-Wolfe loop of the Nesterov variants and the Johnson sub-algorithm of gjk_distance_original are not modelled; the Coq theorems about the algorithm cover the type dispatch only",
     ]
-    R.check_proofs(PROOF_FILES)
+    R.check_proofs(PROOF_FILES, build_targets=["theories/Props/C09.vo", "theories/Model/NesterovLoopRun.vo"])
     cases = []
     corpus = cm.VERIF / "corpus" / PID
     if replay:
@@ -310,4 +357,5 @@ def run(tier, seed, replay=None):
         R.sample(dict(c1=c["c1"], c2=c["c2"], meta=c["meta"],
                       result={r["fn"] + str(op.get("kw", "")): {k: r.get(k) for k in ("d", "iterations", "contact", "exc") if k in r}
                               for op, r in zip(c["ops"], rr)}))
+    nesterov_loop_correspondence(R, cases, tier)
     return R.finish()
